@@ -39,7 +39,11 @@ def coef(lenmin, lenmax, nz=False):
   per = st.lists(vals, min_size=1, max_size=3).map(lambda l: ("periodic", l))
   cst = vals.map(lambda v: ("conststream", v))
   k = (const_nz if nz else const).map(lambda v: ("const", v))
-  return st.one_of(k, seq, seq, per, cst)
+  # a constant of finite duration (itertools.repeat(value, times)) and sequences of plain Fractions
+  # (not Q: a float literal in the gain path would be absorbed exactly by Q)
+  rep = st.tuples(vals, st.integers(lenmin, lenmax)).map(lambda t: ("finrep", t))
+  pln = st.lists(vals, min_size=lenmin, max_size=lenmax).map(lambda l: ("plainseq", l))
+  return st.one_of(k, seq, seq, per, cst, rep, pln)
 
 
 def live(b):
@@ -59,12 +63,20 @@ def shape(lenmin, lenmax):
 class Built(object):
   def __init__(self):
     self.srcs = []     # (Src, kind, length or None)
+    self.lens = []     # lengths of all finite coefficient streams (counted or not)
 
   def real(self, c):
     kind, v = c
     if kind == "const":
       return v
-    if kind == "seq":
+    if kind == "finrep":
+      import itertools
+      self.lens.append(v[1])
+      return Stream(itertools.repeat(v[0], v[1]))       # no counting source: values and length only
+    if kind == "plainseq":
+      s = Src([F(t) for t in v])
+      self.srcs.append((s, kind, len(v)))
+    elif kind == "seq":
       s = Src(v)
       self.srcs.append((s, kind, len(v)))
     elif kind == "periodic":
@@ -76,12 +88,24 @@ class Built(object):
     return Stream(s)
 
 
+def exactify(*coef_lists):
+  """Plain Fractions stay exact only among ints and Fractions: when a plain-Fraction stream is part of
+  the case, float constants (0.5, -1.5) are replaced by ints (a float constant times a plain Fraction is
+  Python's float arithmetic, not the filter's)."""
+  if not any(c[0] == "plainseq" for l in coef_lists for c in l):
+    return coef_lists
+  fix = lambda c: ("const", int(c[1] * 2) or 1) if c[0] == "const" and isinstance(c[1], float) else c
+  return tuple([fix(c) for c in l] for l in coef_lists)
+
+
 def seq_of(c, n):
   """Model: per-sample value list of length <= n (constants are constant sequences)."""
   kind, v = c
   if kind == "const":
     return F(v)
-  if kind == "seq":
+  if kind == "finrep":
+    return [F(v[0])] * min(v[1], n)
+  if kind in ("seq", "plainseq"):
     return [F(t) for t in v[:n]]
   if kind == "periodic":
     return [F(v[i % len(v)]) for i in range(n)]
@@ -150,7 +174,7 @@ def run_and_check(filt, N, D, x, bt, what, leak_check=True):
     if not (g == e):
       raise Violation("%s: y[%d] = %r, expected %r; full %r vs %r" % (what, n, g, e, got, exp))
   L = len(got)
-  input_shortest = all(l is None or l >= len(x) for _, _, l in bt.srcs)
+  input_shortest = all(l is None or l >= len(x) for _, _, l in bt.srcs) and all(l >= len(x) for l in bt.lens)
   for s, kind, l in bt.srcs:
     if input_shortest:
       if s.reads != L:
@@ -189,7 +213,7 @@ def labels_for(b, a, x, got, bt):
 
 
 def run_single(c):
-  b, a = c["shape"]
+  b, a = exactify(*c["shape"])
   x = c["x"]
   if all(cc[0] == "const" for cc in b + a):
     b = [("seq", [Q(1)] * (len(x) + 1))] + list(b[1:])   # keep the case time-varying
@@ -225,7 +249,7 @@ def run_const(c):
   bt = Built()
   bb = [("conststream", Q(v)) if flags[i] else ("const", v) for i, v in enumerate(b)]
   aa = [("conststream", Q(v)) if flags[3 + i] else ("const", v) for i, v in enumerate(a)]
-  filt = build_filter(bb, aa, "expr", bt)
+  filt = build_filter(bb, aa, c.get("route", "expr"), bt)
   got = list(filt(list(x), zero=ZERO))
   plain = list(ZFilter([Q(v) if not isinstance(v, int) else v for v in b],
                        [Q(v) if not isinstance(v, int) else v for v in a])(list(x), zero=ZERO)) \
@@ -289,11 +313,17 @@ def strat_algebra(tier):
                                    c2=st.integers(-2, 2), d=st.integers(3, 4), extra=st.integers(0, 1),
                                    feedback=st.booleans())),
     f=shape(n - 2, n + 2), g=shape(n, n + 2), fb=fir(n - 2, n + 2), gb=fir(n, n + 2),
-    c=st.sampled_from([2, -1, 3, 0.5]), k=st.integers(1, 3),
+    c=st.sampled_from([2, -1, 3, 0.5]), k=st.integers(1, 3), route=st.sampled_from(["expr", "dict", "list"]),
     x=st.lists(qv, min_size=n, max_size=n))))
 
 
 def run_algebra(c):
+  c = dict(c)
+  (fb_, fa_), (gb_, ga_) = c["f"], c["g"]
+  fb_, fa_, gb_, ga_, c["fb"], c["gb"] = exactify(fb_, fa_, gb_, ga_, c["fb"], c["gb"])
+  c["f"], c["g"] = (fb_, fa_), (gb_, ga_)
+  if any(cc[0] == "plainseq" for l in (fb_, fa_, gb_, ga_, c["fb"], c["gb"]) for cc in l):
+    c["c"] = int(c["c"] * 2) or 1
   op, x = c["op"], c["x"]
   n = len(x) + 2
   bt = Built()
@@ -303,9 +333,9 @@ def run_algebra(c):
     # y[n] = (sum_j f_j[n] x[n-j+k]) / g[n], every g value used once
     k = c["k"]
     fb = [("const", 0)] * k + list(c["fb"])
-    f = build_filter(fb, one, "expr", bt)
+    f = build_filter(fb, one, c.get("route", "expr"), bt)
     Nf, _ = model_polys(fb, one, n)
-    gspec = c["gb"][0] if c["gb"][0][0] != "const" else ("seq", [Q(2), Q(-1), Q(1, 2), Q(3)] * 3)
+    gspec = c["gb"][0] if c["gb"][0][0] in ("seq", "periodic", "conststream") else ("seq", [Q(2), Q(-1), Q(1, 2), Q(3)] * 3)
     gspec = (gspec[0], [v if v != 0 else Q(1) for v in gspec[1]]) if gspec[0] in ("seq", "periodic") else \
       (gspec[0], gspec[1] if gspec[1] != 0 else Q(1))
     g = bt.real(gspec)
@@ -340,7 +370,7 @@ def run_algebra(c):
     used = ("hub x%d" % uses, h)
   elif op in ("add", "sub", "mul", "shared_square"):
     fb, gb = c["fb"], c["gb"]
-    f = build_filter(fb, one, "expr", bt)
+    f = build_filter(fb, one, c.get("route", "expr"), bt)
     Nf, Df = model_polys(fb, one, n)
     if op == "shared_square":
       # the same coefficient Streams feed several product terms (tee accounting)
@@ -348,7 +378,7 @@ def run_algebra(c):
       real = f * g
       N, D = P_mul(Nf, Nf), {0: F(1)}
     else:
-      g = build_filter(gb, one, "expr", bt)
+      g = build_filter(gb, one, c.get("route", "expr"), bt)
       Ng, Dg = model_polys(gb, one, n)
       if op == "add":
         real, N, D = f + g, P_add(Nf, Ng), {0: F(1)}
@@ -359,7 +389,7 @@ def run_algebra(c):
     used = (fb, one)
   elif op in ("scale", "delay", "neg"):
     fb, fa = c["f"]
-    f = build_filter(fb, fa, "expr", bt)
+    f = build_filter(fb, fa, c.get("route", "expr"), bt)
     Nf, Df = model_polys(fb, fa, n)
     if op == "scale":
       real, N, D = c["c"] * f, {k: s_mul(v, F(c["c"])) for k, v in Nf.items()}, Df
@@ -371,8 +401,8 @@ def run_algebra(c):
   elif op == "mul_iir":
     fb, fa = c["f"]
     gb = c["gb"]
-    f = build_filter(fb, fa, "expr", bt)
-    g = build_filter(gb, one, "expr", bt)
+    f = build_filter(fb, fa, c.get("route", "expr"), bt)
+    g = build_filter(gb, one, c.get("route", "expr"), bt)
     Nf, Df = model_polys(fb, fa, n)
     Ng, _ = model_polys(gb, one, n)
     real, N, D = f * g, P_mul(Nf, Ng), Df
@@ -382,8 +412,8 @@ def run_algebra(c):
     gb, ga = c["g"]
     if all(cc[0] == "const" for cc in fa + ga) and fa == ga:
       ga = [("const", 2)] + list(ga[1:]) if ga[0] != ("const", 2) else [("const", 3)] + list(ga[1:])
-    f = build_filter(fb, fa, "expr", bt)
-    g = build_filter(gb, ga, "expr", bt)
+    f = build_filter(fb, fa, c.get("route", "expr"), bt)
+    g = build_filter(gb, ga, c.get("route", "expr"), bt)
     Nf, Df = model_polys(fb, fa, n)
     Ng, Dg = model_polys(gb, ga, n)
     if all(cc[0] == "const" for cc in fa + ga) and nonzero(Df) == nonzero(Dg):
